@@ -143,5 +143,7 @@ class SocketSpawn(SpawnBase):
                 s = self._decoder.decode(s, final=False)
                 self._log(s, 'read')
                 return s
-        except socket.timeout:
+        except (socket.timeout, BlockingIOError):
+            # timeout=0 puts the socket in non-blocking mode, where "nothing
+            # to read right now" is reported as BlockingIOError
             raise TIMEOUT("Timeout exceeded.")
